@@ -182,6 +182,7 @@ class LogicLoader:
         actions: Set[str],
         guards: Set[str],
         services: Set[str],
+        optional_actions: Optional[Set[str]] = None,
     ) -> None:
         """Recursively traverses a StateNode tree to extract all logic names.
 
@@ -227,6 +228,10 @@ class LogicLoader:
                 #    implemented by the interpreter, so requiring a user
                 #    implementation would make auto-discovery reject every
                 #    machine that uses the declarative action vocabulary.
+                #    A user may still supply an action of that name, and it
+                #    then takes precedence: remember the name as optional.
+                if optional_actions is not None:
+                    optional_actions.add(action_type)
                 continue
             else:
                 actions.add(action_type)
@@ -240,12 +245,14 @@ class LogicLoader:
                 for action_def in transition.actions:
                     if not is_builtin_action(action_def.type):
                         actions.add(action_def.type)
+                    elif optional_actions is not None:
+                        optional_actions.add(action_def.type)
                 LogicLoader._collect_guard_names(transition.guard_def, guards)
 
         # 🌳 Recurse into child states
         for child_node in node.states.values():
             LogicLoader._extract_logic_from_node(
-                child_node, actions, guards, services
+                child_node, actions, guards, services, optional_actions
             )
 
     @staticmethod
@@ -362,8 +369,13 @@ class LogicLoader:
         )
         # Temporarily create a machine node to traverse its structure
         temp_machine = MachineNode(config=machine_config, logic=MachineLogic())
+        optional_actions: Set[str] = set()
         LogicLoader._extract_logic_from_node(
-            temp_machine, required_actions, required_guards, required_services
+            temp_machine,
+            required_actions,
+            required_guards,
+            required_services,
+            optional_actions,
         )
 
         # ---------------------------------------------------------------------
@@ -391,6 +403,12 @@ class LogicLoader:
                         "no implementation was found in the provided modules "
                         "or providers."
                     )
+
+        # 🥇 A user implementation named like a built-in action wins over the
+        #    built-in, exactly as it does with an explicit `MachineLogic`.
+        for name in optional_actions:
+            if name in logic_map:
+                discovered_logic["actions"][name] = logic_map[name]
 
         total = sum(len(d) for d in discovered_logic.values())
         logger.info(
